@@ -367,6 +367,8 @@ def run(facts, R):
                         return render(l_[1][2]).endswith("." + f) and render(l_[1][2]) == render(l_[1][3]) and const_val(r_) == 0
                     if l_[0] == "bin" and l_[1] == "Sub":
                         return render(l_[2]).endswith("." + f) and render(l_[2]) == render(l_[3]) and const_val(r_) == 0
+                    if l_[0] == "call" and l_[1].rsplit("::", 1)[-1] in ("saturating_sub", "wrapping_sub", "abs_diff") and len(l_[2]) == 2:
+                        return render(l_[2][0]).endswith("." + f) and render(l_[2][0]) == render(l_[2][1]) and const_val(r_) == 0
                     return render(l_).endswith("." + f) and render(l_) == render(r_)
                 dead2 = []
                 for x_ in sorted(b.live_blocks()):
